@@ -352,8 +352,8 @@ def srvStep (s : SelSt) : SelLabel → Option SelSt
     | .locked, .panic v => some { s with lock := none, panicChan := some v, wpc := .ended }
     | .locked, .never => none
     | .gotResp, .ret _ e => some { s with err := e, wpc := .gotErr }
-    | .gotErr, _ => some { s with done := true, wpc := .closed }
-    | .closed, _ => some { s with lock := none, wpc := .ended }
+    | .gotErr, .ret _ _ => some { s with done := true, wpc := .closed }
+    | .closed, .ret _ _ => some { s with lock := none, wpc := .ended }
     | _, _ => none
   | .env k => if s.ctxErr.isNone then some { s with ctxErr := some k } else none
   | .mPanic =>
